@@ -24,12 +24,11 @@ first.  Only property theorems and non-vacuity examples live in this file.
 
 Indices are `Nat`, so the statements hold for *every* index: `Bounded.get i = none` for all
 `i ≥ len` however large (`no_dead_slot_exposed`; the code tests `index >= len` before any
-addition, so this is also what the machine code does for indices up to `usize::MAX`), and
-`Fixed.get i = abs[i % N]` for all `i`.  For `Fixed` the machine code evaluates
-`(first + index) % len` in `usize`; it agrees with the model exactly when
-`first + index ≤ usize::MAX` — the claimed domain (props/C06.json, assumptions). Beyond it the
-real code overflows (panic with overflow checks, another element without); the harness probes and
-records that on every run.
+addition), and `Fixed.get i = abs[i % N]` for all `i` (`Fixed.get_abs`).  Since fix commit 5f913b5
+`Fixed::get/get_mut` reduce the index modulo `len` *before* adding `first`, so the machine sum is
+`< 2 * len` and cannot overflow `usize` (`Fixed.wrapped_sum_small`); the expression used before
+that commit, evaluated in wrapping 64-bit arithmetic, selects the wrong slot
+(`Fixed.wrappedOld64_wrong_slot`).
 -/
 set_option linter.unusedSectionVars false
 set_option linter.unusedSimpArgs false
@@ -587,7 +586,22 @@ theorem get_abs (f : Fixed α) (h : f.Inv) (i : Nat) : some (f.get i) = f.abs[i 
   unfold Fixed.Inv Fixed.len at h
   unfold Fixed.get Fixed.wrapped Fixed.abs Fixed.len
   rw [window_getElem?]
-  simp only [Nat.mod_lt _ (show 0 < f.data.length by omega), if_true, Nat.add_mod_mod]
+  simp only [Nat.mod_lt _ (show 0 < f.data.length by omega), if_true]
+
+/-- the sum the code forms in `usize` for ANY index is below `2 * len`: no overflow for any slice
+    (a slice has at most `isize::MAX` bytes, so `2 * len ≤ usize::MAX`) -/
+theorem wrapped_sum_small (f : Fixed α) (h : f.Inv) (i : Nat) : f.first + i % f.len < 2 * f.len := by
+  have := Nat.mod_lt i (show 0 < f.len by unfold Fixed.Inv at h; omega)
+  unfold Fixed.Inv at h; omega
+
+/-- **Historical counter-witness (code before fix commit 5f913b5).** `(first + index) % len` evaluated
+    in wrapping 64-bit arithmetic: in the valid state first = 1, N = 3 the index 2^64 − 1 selects
+    backing slot 0, while element `index mod N` (= element 0 of the oldest-first order) lives in slot 1,
+    which is what the current expression selects. -/
+theorem wrappedOld64_wrong_slot :
+    ∃ f : Fixed Nat, f.Inv ∧ f.wrappedOld64 (2 ^ 64 - 1) = 0 ∧ f.wrapped (2 ^ 64 - 1) = 1 ∧
+      f.abs[(2 ^ 64 - 1) % f.len]? = some f.data[1]! ∧ f.data[f.wrappedOld64 (2 ^ 64 - 1)]! ≠ f.data[1]! :=
+  ⟨⟨[11, 12, 13], 1⟩, by decide, by decide, by decide, by decide, by decide⟩
 
 theorem push_len (f : Fixed α) (x : α) : (f.push x).1.len = f.len := by simp [Fixed.push, Fixed.len]
 
@@ -652,9 +666,7 @@ theorem getMutSet_refines (f : Fixed α) (i : Nat) (x : α) (h : f.Inv) :
   unfold Fixed.getMutSet Fixed.wrapped Fixed.abs Fixed.len
   simp only [List.length_set]
   have hlt : i % f.data.length < f.data.length := Nat.mod_lt _ (by omega)
-  have := window_set_at f.data f.first f.data.length (i % f.data.length) x h (Nat.le_refl _) hlt
-  rw [Nat.add_mod_mod] at this
-  exact this
+  exact window_set_at f.data f.first f.data.length (i % f.data.length) x h (Nat.le_refl _) hlt
 
 /-- *"the slice pair … agree[s] on oldest-first order"* -/
 theorem slices_abs (f : Fixed α) (h : f.Inv) : f.slices.1 ++ f.slices.2 = f.abs := by
